@@ -73,4 +73,10 @@ type CompactionTask struct {
 
 	// Output file path template
 	OutputPathTemplate string
+
+	// HasDeeperData is set when files that are not inputs, at levels below the
+	// target level, overlap the key range of the inputs. Deletion markers must
+	// then be kept: dropping one would let an older version of the key, stored
+	// in such a file, become visible again.
+	HasDeeperData bool
 }
